@@ -7,7 +7,7 @@
 From Coq Require Import ZArith NArith List Bool Lia Sorted Permutation.
 From DS.gen Require Import CpcTablesGen.
 From DS Require Import Word Murmur3 RunnerLib CpcDefs CpcTableProofs CpcBits CpcSketchInv CpcProofs
-     CpcUnionProofs CpcCodecTables CpcCodecDefs CpcCodecProofs Regression_cpc.
+     CpcUnionProofs CpcCodecTables CpcCodecDefs CpcCodecProofs CpcFlavorDefs CpcFlavorProofs Regression_cpc.
 Import ListNotations.
 Local Open Scope N_scope.
 
@@ -148,6 +148,34 @@ Theorem C05_surprising_values_rt : forall lg_k pairs words, lg_k <= 30 ->
   uncompress_surprising_values words (N.of_nat (length pairs)) lg_k = Some pairs.
 Proof. exact surprising_values_rt. Qed.
 
+(* --- end to end per flavor: cpc_compressor::uncompress(compress(s)) gives back the window and the table (as a set), for
+   EMPTY / SPARSE / HYBRID (pairs merged from window and table, split back) / PINNED (columns shifted by 8) / SLIDING
+   (columns rotated by the offset and permuted by the phase); [table_fits] only constrains SLIDING sketches with more than
+   48K surprising values (the rebuilt table would need lg_size > num_valid_bits; unreachable through hashed inputs) --- *)
+Theorem C05_flavor_codec_rt : forall l s hist c,
+  SInv l s hist -> 4 <= l <= 26 -> table_fits l s ->
+  compress_sketch s = Some c ->
+  exists t', uncompress_sketch c l (ncoup s) = Some (t', window s) /\
+             TInv t' /\ t_nvb t' = 6 + l /\
+             (forall y, In y (t_items t') <-> In y (t_items (table s))).
+Proof. exact flavor_codec_rt. Qed.
+
+(* the sketch after deserialize(serialize s) has the same scalar fields, window and offset, the same table set, and
+   represents the same coupon history (hence the same bit matrix, count, and it can be updated / merged further) *)
+Theorem C05_codec_roundtrip_state : forall l s hist s',
+  SInv l s hist -> 4 <= l <= 26 ->
+  (l = 26 -> determine_flavor l (ncoup s) = FL_SLIDING -> t_num (table s) <= 2 ^ 31) ->
+  codec_roundtrip s = Some s' ->
+  lgk s' = lgk s /\ seed s' = seed s /\ merged s' = merged s /\ ncoup s' = ncoup s /\ window s' = window s /\
+  woff s' = woff s /\ fic s' = fic s /\ (forall y, In y (t_items (table s')) <-> In y (t_items (table s))) /\
+  SInv l s' hist.
+Proof. exact codec_roundtrip_state. Qed.
+
+Theorem C05_codec_roundtrip_total : forall l s hist, SInv l s hist -> 4 <= l <= 26 ->
+  t_num (table s) <= 2 ^ 26 -> table_fits l s ->
+  exists s', codec_roundtrip s = Some s'.
+Proof. exact codec_roundtrip_total. Qed.
+
 (* with 64-bit products (fixes/05_cpc_pseudo_phase_overflow.patch) a SLIDING sketch always gets a steady-state
    phase, so serialize() cannot throw "unexpected pseudo phase"; the old 32-bit code is refuted in Regression_cpc.v *)
 Theorem C05_sliding_phase_lt16 : forall lg_k c, 4 <= lg_k -> 27 * 2 ^ lg_k <= 8 * c ->
@@ -183,6 +211,13 @@ Example C05_union_nonvacuous :
    Some (lgk r, ncoup r, woff r <=? 56, union_lg 7 [(6, rev ex_b); (4, []); (5, rev ex_a)])) = Some (5, 98, true, 5).
 Proof. vm_compute. reflexivity. Qed.
 
+Example C05_codec_nonvacuous :
+  (do s <- sk_run 4 9001 ex_rcs; do s' <- codec_roundtrip s; do m <- build_bit_matrix s; do m' <- build_bit_matrix s';
+   Some (determine_flavor 4 (ncoup s), ncoup s', woff s', length (t_items (table s')) =? length (t_items (table s)))%nat,
+   (do s <- sk_run 4 9001 ex_rcs; do s' <- codec_roundtrip s; do m <- build_bit_matrix s; do m' <- build_bit_matrix s';
+    Some (forallb (fun p => fst p =? snd p) (combine m m')))) = (Some (FL_SLIDING, 64, 1, true), Some true).
+Proof. vm_compute. reflexivity. Qed.
+
 Print Assumptions C05_table_refines_set.
 Print Assumptions C05_matrix_exact.
 Print Assumptions C05_count_distinct.
@@ -204,5 +239,8 @@ Print Assumptions C05_pairs_codec_total.
 Print Assumptions C05_pairs_codec_len.
 Print Assumptions C05_sliding_window_rt.
 Print Assumptions C05_surprising_values_rt.
+Print Assumptions C05_flavor_codec_rt.
+Print Assumptions C05_codec_roundtrip_state.
+Print Assumptions C05_codec_roundtrip_total.
 Print Assumptions C05_sliding_phase_lt16.
 Print Assumptions C05_old_pseudo_phase_refuted.
